@@ -98,6 +98,15 @@ def cases(tier, seed=0):
         for a, b in itertools.product(sh[name], repeat=2):
             cs.append({"kind": "asym", "kv1": a, "kv2": b, "quads": ["default", "union", "fine", "fine3"],
                        "nqp_plus": (a[0] + b[0]) % 2 == 0})
+    if not quick:
+        # degrees 5 and 6 against all degrees 0..6 on two patterns, interior multiplicities from {1, 2, p} (U2) / {1, p} (G3)
+        hi = {"U2": [[p, "U2", [m]] for p in (5, 6) for m in (1, 2, p)],
+              "G3": [[p, "G3", [m1, m2]] for p in (5, 6) for m1 in (1, p) for m2 in (1, p)]}
+        for name in ("U2", "G3"):
+            lo = sh[name]
+            for a, b in itertools.chain(itertools.product(hi[name], lo + hi[name]), itertools.product(lo, hi[name])):
+                cs.append({"kind": "asym", "kv1": a, "kv2": b, "quads": ["default", "union", "fine", "fine3"],
+                           "nqp_plus": (a[0] + b[0]) % 2 == 0})
     # ---- two spaces on nested meshes
     shn = _shapes(2 if quick else 3, u4_maxmult=2)
     for coarse, fine in NESTED:
@@ -149,7 +158,7 @@ def fast_cases(tier, seed=0):
     cs = []
     if quick:
         sp2 = [[[1, "uniform", 3], [1, "uniform", 3]], [[2, "uniform", 4], [2, "uniform", 5]], [[3, "uniform", 6], [2, "uniform", 4]],
-               [[3, "U4", [1, 2, 1]], [2, "G3", [1, 1]]]]
+               [[3, "U4", [1, 2, 1]], [2, "G3", [1, 1]]], [[2, "uniform", 5], [2, "uniform", 3]]]
         sp3 = [[[2, "uniform", 3], [2, "uniform", 4], [1, "uniform", 3]]]
     else:
         sp2 = [[[p1, "uniform", n1], [p2, "uniform", n2]] for p1 in (1, 2, 3) for p2 in (1, 2, 3)
@@ -158,8 +167,8 @@ def fast_cases(tier, seed=0):
                 [[1, "U3", [1, 1]], [4, "U2", [2]]], [[2, "G4", [2, 1]], [2, "U4", [1, 1, 1]]]]
         sp3 = [[[p, "uniform", n]] * 3 for p in (1, 2) for n in (2, 3)]
         sp3 += [[[2, "uniform", 3], [2, "uniform", 4], [1, "uniform", 3]], [[3, "uniform", 4], [2, "U2", [1]], [1, "U3", [1, 1]]]]
-    g2 = ["bspline_quarter_annulus", "quarter_annulus", geos2(seed)[2]]
-    g3 = ["twisted_box", geos3(seed)[3]]
+    g2 = ["bspline_quarter_annulus", "quarter_annulus", geos2(0)[2]]      # fixed payload: the ACA outcome depends on it
+    g3 = ["twisted_box", geos3(0)[3]]
     for which in ("mass", "stiffness"):
         for g in g2:
             for k, ax in enumerate(sp2):
@@ -195,13 +204,7 @@ def _check(case, stats=None):
         return c09_oned.check_1d(case, stats)
     if kind == "asym":
         from props import c09_oned
-        probs, calls = [], 0
-        for q in case["quads"]:
-            pr, n = c09_oned.check_asym(dict(case, quad=q), stats)
-            probs += pr
-            calls += n
-        from props.c09_util import dedupe
-        return dedupe(probs), calls
+        return c09_oned.check_asym(case, stats)
     if kind in ("tpid", "tpgeo", "rhs", "det"):
         from props import c09_tp
         return getattr(c09_tp, "check_" + kind)(case, stats)
@@ -304,6 +307,9 @@ def run(ctx):
     import scipy.sparse.linalg  # noqa: F401
     import ctypes  # noqa: F401
     from props import c09_util, c09_oned, c09_tp, c09_fast  # noqa: F401
+    import gc
+    gc.collect()
+    gc.freeze()      # forked workers do not copy the inherited heap just because a collection marks it
     order = {"det": 0, "1d": 1, "asym": 2, "tpid": 3, "tpgeo": 4, "rhs": 5, "fast": 6}
     # run-time compiled forms (mass 1D; stiffness 1D, 2D, 3D): compile once, in parallel, before the workers fork
     warm = par.pmap(_warm, [(1, "mass"), (1, "stiffness"), (2, "stiffness"), (3, "stiffness")], workers=4, chunk=1, min_parallel=1)
@@ -366,7 +372,9 @@ def run(ctx):
                 % sorted(KV.PATTERNS))
     out.assumptions += [
         "breakpoint sequences come from the finite alphabet of ref/kvs.py (uniform, graded over 6 decades, shifted); degrees 0..%d "
-        "for single knot vectors, 0..%d for pairs of knot vectors (U4 multiplicities <= 2 in pairs)" % (4 if ctx.tier == "quick" else 6, 3 if ctx.tier == "quick" else 4),
+        "for single knot vectors, 0..%d for pairs of knot vectors (U4 multiplicities <= 2 in pairs%s)"
+        % (4 if ctx.tier == "quick" else 6, 3 if ctx.tier == "quick" else 4,
+           "" if ctx.tier == "quick" else "; degrees 5-6 in pairs only on U2 / G3 with multiplicities from {1, 2, p} / {1, p}"),
         "exact integrals are demanded only where the documented Gauss rule is sufficient for the polynomial degree of the integrand "
         "(default nqp of the 1D routines, max(p)+1 nodes per direction in the assemblers); a higher-degree weight denotes a Gauss sum",
         "tensor-product spaces are ordered tuples over an alphabet of factor spaces with pairwise different dof counts, not all of KV(p)^d; "
